@@ -43,15 +43,16 @@ MANIFEST = {
 
 PLAN17 = {
     "quick": dict(mc=["MC_Reobserve_quick.cfg", "MC_Reobserve_post.cfg"], tlc=(150, 16), cleanup=28,
-                  gens=[("sweep", 112), ("random", 160), ("phase", 120), ("fill", 60), ("txids", 60), ("burst1100", 1), ("burst2100", 1), ("wide", 12)]),
+                  gens=[("sweep", 112), ("random", 160), ("phase", 120), ("fill", 60), ("repeat", 120), ("txids", 60), ("burst1100", 1), ("burst2100", 1), ("wide", 12)]),
     "thorough": dict(mc=["MC_Reobserve_thorough.cfg", "MC_Reobserve_post.cfg"], tlc=(2500, 24), cleanup=140,
-                     gens=[("sweep", 448), ("random", 3000), ("phase", 2500), ("fill", 600), ("txids", 600), ("burst1100", 2), ("burst2100", 2), ("burst5000", 2), ("wide", 60)]),
+                     gens=[("sweep", 448), ("random", 3000), ("phase", 2500), ("fill", 600), ("repeat", 1500), ("txids", 600), ("burst1100", 2), ("burst2100", 2), ("burst5000", 2), ("wide", 60)]),
 }
 PLAN15 = {"quick": dict(seeded=800, batches=250), "thorough": dict(seeded=20000, batches=6000)}
 
 ASSUME17 = [
     "a transaction is identified by the exact byte string of its id (any length), a chain by its exact 32-bit id",
-    "the harness issues a request only after the previous step's sentinel was received and the ticker channel is empty, i.e. tick processing "
+    "the harness issues a request only after the previous step's rendezvous (a sentinel request received, or - so that nothing comes between "
+    "two copies of a request - the router goroutine observed parked in its select) and when the ticker channel is empty, i.e. tick processing "
     "latency is negligible against the minute-scale window (in production select may serve a request before a simultaneously due tick)",
     "mock clock semantics as modelled in MC_Reobserve.tla (ticks at multiples of the period since creation, 1-slot channel, non-blocking offer)",
     "watcher queues have a single consumer; the harness's sentinel requests name a chain no watcher serves (65535, or 65533 in histories where 65535 is a watched chain)",
@@ -183,6 +184,7 @@ def run17(tier, replay):
     reqc = Counter()
     txlens = Counter()
     livec = Counter()
+    b2b = Counter()
     aliasc = Counter()
     advc = Counter()
     postc = Counter()
@@ -193,6 +195,8 @@ def run17(tier, replay):
             reqc[(c["known"], c["wide"], c["fill"], c["age"], c["fwd"], c["phase"])] += 1
             txlens[c["txlen"]] += 1
             livec[(c["live"], c["age"], c["fwd"])] += 1
+            if c["back2back"]:
+                b2b[(c["fill"], c["age"], c["fwd"])] += 1
             if c["alias"] and c["age"] == "never":
                 aliasc["forwarded" if c["fwd"] else "dropped-%s" % c["fill"]] += 1
         elif c["ev"] == "Advance":
@@ -206,6 +210,8 @@ def run17(tier, replay):
                 "post-ok": any(k[0] for k in postc), "post-full": any(not k[0] for k in postc),
                 "colliding-tx-ids-forwarded": aliasc["forwarded"] >= 20, "tx-id-lengths": len(txlens) >= 8,
                 "suppressed-with-more-than-1000-pairs-in-window": livec[("gt1000", "ltW", False)] >= 6,
+                "back-to-back-copy-forwarded-after-drop": sum(v for k, v in b2b.items() if k[1] == "never" and k[2]) >= 20,
+                "back-to-back-copy-suppressed": any(k[1] == "ltW" and not k[2] for k in b2b),
                 "cleanup-post-ok": any(k == (True, "cleanup") for k in postc), "cleanup-post-full": any(k == (False, "cleanup") for k in postc)}
         missing = [k for k, v in need.items() if not v]
         if missing:
@@ -232,6 +238,7 @@ def run17(tier, replay):
         "advance_classes": {"/".join(map(str, k)): v for k, v in sorted(advc.items(), key=str)},
         "post_classes": {"/".join(map(str, k)): v for k, v in sorted(postc.items(), key=str)},
         "requests_by_pairs_remembered_in_window": {"/".join(map(str, k)): v for k, v in sorted(livec.items(), key=str)},
+        "back_to_back_copies_of_the_previous_request": {"/".join(map(str, k)): v for k, v in sorted(b2b.items(), key=str)},
         "cleanup_pass_scenarios": len(cleanups),
         "tx_id_lengths_bytes": {str(k): v for k, v in sorted(txlens.items())},
         "requests_whose_id_collides_with_a_forwarded_one_under_crop_or_pad": dict(aliasc),
